@@ -148,6 +148,17 @@ func genCnfForMus(r *rand.Rand, tier string) *CnfCase {
 			cls = append(cls, genClause(r, n, 1, 3, 0, 0))
 		}
 	}
+	if r.Intn(5) == 0 && len(cls) > 0 { // a clause written with a repeated literal (x x, x y x)
+		k := r.Intn(len(cls))
+		if len(cls[k]) > 0 {
+			c := append([]int{}, cls[k]...)
+			c = append(c, c[r.Intn(len(c))])
+			if r.Intn(2) == 0 {
+				c = append(c, c[0])
+			}
+			cls[k] = c
+		}
+	}
 	if r.Intn(6) == 0 && len(cls) > 0 { // repeated clause
 		cls = append(cls, append([]int{}, cls[r.Intn(len(cls))]...))
 	}
